@@ -281,6 +281,10 @@ func c10Run(p *harness.Proxy, binary bool, port int, prog c10Program, tier int, 
 	if len(prog.EvictL) > 0 {
 		for _, k := range prog.EvictL {
 			evictClientKey(p, k)
+			if !p.Cfg.L2 {
+				// without an L2 the eviction loses the key altogether
+				pm.states[k] = []pstate{{}}
+			}
 		}
 	}
 	// bystander connection, opened before the fault
